@@ -1,10 +1,31 @@
 (* C14/Corr.v — correspondence runner: model output vs observed output, spec on observed output.
    One constructor per sub-check.  zlib and SHA-1 enter as the values observed on the real
    functions (tables carried by the case). *)
-From Coq Require Import String Ascii List Bool Arith ZArith.
+From Coq Require Import String Ascii List Bool Arith ZArith Uint63.
 From Verif Require Import Base.Str Base.Run Base.Percent Base.Base64 Base.Html Base.Query C14.Model C14.Spec.
 Import ListNotations.
 Open Scope string_scope.
+
+(* Case-writer helper: byte strings of 16+ bytes are written packed, 7 bytes per primitive 63-bit
+   integer (little endian), because Coq parses string literals slowly (~50 us per character).
+   pk len l = the first len bytes. *)
+Definition bit_of (n i : int) : bool := negb (is_zero (PrimInt63.land (PrimInt63.lsr n i) 1%uint63)).
+Definition byte_at (n i : int) : ascii :=
+  let b := PrimInt63.lsr n (PrimInt63.mul 8%uint63 i) in
+  Ascii (bit_of b 0%uint63) (bit_of b 1%uint63) (bit_of b 2%uint63) (bit_of b 3%uint63)
+        (bit_of b 4%uint63) (bit_of b 5%uint63) (bit_of b 6%uint63) (bit_of b 7%uint63).
+Fixpoint unpack (l : list int) : string :=
+  match l with
+  | [] => EmptyString
+  | n :: r =>
+      String (byte_at n 0%uint63) (String (byte_at n 1%uint63) (String (byte_at n 2%uint63)
+     (String (byte_at n 3%uint63) (String (byte_at n 4%uint63) (String (byte_at n 5%uint63)
+     (String (byte_at n 6%uint63) (unpack r)))))))
+  end.
+Definition pk (len : nat) (l : list int) : string := take len (unpack l).
+
+Example pk_example : pk 9 [32495401788859493; 28271]%uint63 = "eduPerson".
+Proof. vm_compute. reflexivity. Qed.
 
 (* observed zlib behaviour: (input, output) pairs; anything else is an error / empty *)
 Definition ztab := list (string * option string).
@@ -31,6 +52,7 @@ Inductive case :=
 | KPost (x : post_in) (zt : ztab) (form : option string) (received : ures) (hp : list token)
 | KRedir (x : redir_in) (dt : dtab) (zt : ztab) (url : option string) (received : ures)
 | KArtUrl (x : arturl_in) (url : string)
+| KUriUrl (x : uriurl_in) (url : string)
 | KSoap (t : string) (env : option string) (canon_sent canon_received : option string)
 | KUnravel (txt : string) (b : binding) (zt : ztab) (res : ures)
 | KArt (x : art_in) (art : string) (dest : ares)
@@ -59,6 +81,7 @@ Definition agrees (c : case) : bool :=
       && (negb (saml_typ (r_typ x))
           || ures_eqb (redirect_received (tab_deflate dt) (tab_inflate zt) no_soap (r_msg x)) received)
   | KArtUrl x url => String.eqb (use_http_artifact (u_art x) (u_dest x) (u_rs x)) url
+  | KUriUrl x url => String.eqb (use_http_uri (i_id x) (i_dest x) (i_rs x)) url
   | KSoap t env _ _ => opt_str_eqb (make_soap t) env
   | KUnravel txt b zt res => ures_eqb (unravel (tab_inflate zt) no_soap txt b) res
   | KArt x art dest =>
@@ -73,6 +96,7 @@ Definition holds (c : case) : bool :=
       post_spec_b x form received && (negb (post_defined x) || tokens_ok x hp received)
   | KRedir x _ _ url received => redir_spec_b x url received
   | KArtUrl x url => arturl_spec_b x url
+  | KUriUrl x url => uriurl_spec_b x url
   | KSoap t env cs cr =>
       soap_spec_b t env
       && match cs with
@@ -83,12 +107,18 @@ Definition holds (c : case) : bool :=
   | _ => true
   end.
 
-(* known-finding classes (consulted only when [holds] is false) *)
+(* finding classes (consulted only when [holds] is false).  Class 1 is open; classes 2, 3, 4 and 5
+   are repaired in /repo (findings/C14.json: status fixed), so a case that falls into them
+   is reported as a VIOLATION again: the class only names the regression. *)
+Definition url_cls (dest : string) (repaired : nat) (was_ok : bool) : nat :=
+  if negb (qtail_ok dest) then 5 else if was_ok then 0 else repaired.
+
 Definition cls (c : case) : nat :=
   match c with
   | KArt x _ _ => if idx_ok (a_idx x) then 0 else 1
-  | KRedir x _ _ _ _ => if loc_ok (r_loc x) then 0 else 2
-  | KArtUrl x _ => if dest_plain (u_dest x) then 0 else 3
+  | KRedir x _ _ _ _ => url_cls (r_loc x) 2 (loc_ok (r_loc x))
+  | KArtUrl x _ => url_cls (u_dest x) 3 (dest_plain (u_dest x))
+  | KUriUrl x _ => url_cls (i_dest x) 3 (dest_plain (i_dest x))
   | KSoap t _ _ _ => if body_ok t then 0 else 4
   | _ => 0
   end.
@@ -124,6 +154,8 @@ Definition explain (c : case) : shown * bool * bool * nat :=
             (match url with Some u => parse_qsl (url_query u) | None => [] end) (redir_spec_b x url received)
    | KArtUrl x url => SUrl (Some (use_http_artifact (u_art x) (u_dest x) (u_rs x))) UUnravelError
                            (parse_qsl (url_query url)) (arturl_spec_b x url)
+   | KUriUrl x url => SUrl (Some (use_http_uri (i_id x) (i_dest x) (i_rs x))) UUnravelError
+                           (parse_qsl (url_query url)) (uriurl_spec_b x url)
    | KSoap t env _ _ => SOpt (make_soap t) (body_of t)
    | KUnravel txt b zt _ => SU (unravel (tab_inflate zt) no_soap txt b)
    | KArt x art dest => SArt (create_artifact (fun _ => a_sid x) (a_eid x) (a_handle x) (a_idx x))
